@@ -106,6 +106,7 @@ func (ts *Timers) add(ctx context.Context, e *TimerEntry) error {
 	ts.Map[e.Id] = e
 	e.timers = ts
 	ts.changed()
+	vhook("timer-added", e.Id, e)
 
 	go e.run(ctx)
 
@@ -140,18 +141,23 @@ func (te *TimerEntry) run(ctx context.Context) error {
 	te.timers.c.Logf("TimerEntry %s run", te.Id)
 
 	t := time.NewTimer(te.At.Sub(time.Now()))
+	vhook("timer-wait", te.Id, te)
 	select {
 	case <-t.C:
 		te.timers.c.Logf("Firing timer '%s'", te.Id)
+		vhook("timer-due", te.Id, te)
 		te.timers.Emitter(ctx, te)
+		vhook("timer-emitted", te.Id, te)
 		te.timers.Lock()
 		delete(te.timers.Map, te.Id)
 		te.timers.Unlock()
 		te.timers.c.Lock()
 		te.timers.changed()
 		te.timers.c.Unlock()
+		vhook("timer-cleaned", te.Id, te)
 	case <-te.Ctl:
 		te.timers.c.Logf("Canceling timer '%s'", te.Id)
+		vhook("timer-cancel-seen", te.Id, te)
 	case <-ctx.Done():
 	}
 	return nil
@@ -170,6 +176,7 @@ func (ts *Timers) cancel(ctx context.Context, id string) error {
 	}
 	delete(ts.Map, id)
 	ts.changed()
+	vhook("timer-cancelled", id, t)
 
 	close(t.Ctl)
 
